@@ -85,6 +85,18 @@ def forward_alphabet(T):
     return [a for a in nfa(T).alphabet if a in M or a in h]
 
 
+def deep_alphabet(T):
+    """forward_alphabet plus three representatives (first, middle, last) of the remaining symbols: a small mixed
+    alphabet that lets the types with repeated names be explored two levels deeper"""
+    fa = forward_alphabet(T)
+    if not fa:
+        return None
+    rest = [a for a in reduced_alphabet(T) if a not in fa]
+    reps = [rest[0], rest[len(rest) // 2], rest[-1]] if len(rest) > 3 else rest
+    keep = set(fa) | set(reps)
+    return [a for a in nfa(T).alphabet if a in keep]
+
+
 def rename_map(T):
     """full symbol -> its R1 representative (nearest kept member of its run)"""
     p = R.content_model(T)
@@ -189,6 +201,7 @@ PROFILES = {
     'ser': ('A', 'F', 'R', 'Xs', 'P', 'Sc', 'S'),
     'norem': ('A', 'F', 'Ps', 'S'),
     'fwd': ('A', 'F', 'R', 'S'),
+    'deep': ('A', 'R', 'S'),
 }
 
 _bad_attr = {}
@@ -286,6 +299,11 @@ class Pre:
         self.hist = hist
 
 
+class _FakePre:
+    def __init__(self, h):
+        self.hist, self.names, self.model = h, [], []
+
+
 class Spec:
     """one exploration: element type, operation profile, transition budget, oracle factory name"""
 
@@ -309,7 +327,14 @@ def _expand(arg):
     orc = _ORACLE_FACTORY[spec.oname](col)
     out = []
     for (h, op) in items:
-        st = build(spec.T, h, spec.check, spec.child_mode, spec.el_name)
+        try:
+            st = build(spec.T, h, spec.check, spec.child_mode, spec.el_name)
+        except Exception as e:
+            # a fresh element of this type cannot even be constructed / the recorded history cannot be replayed
+            col.add(spec.T, 'replay-raises', [[list(x) for x in h], type(e).__name__], _FakePre(h), op)
+            if want_g:
+                out.append(('replay-raises:%s' % type(e).__name__, [], []))
+            continue
         pre = Pre(st, h)
         o = apply(st, op, spec.child_mode)
         if want_g:
@@ -326,8 +351,11 @@ def run_bfs(specs, factories):
     _ORACLE_FACTORY = factories
     S = {}
     for sp in specs:
-        st0 = build(sp.T, [], sp.check, sp.child_mode, sp.el_name)
-        S[sp.key] = {'spec': sp, 'seen': {G(st0)}, 'frontier': [((), [], [])], 'transitions': 0, 'depth': 0,
+        try:
+            g0 = G(build(sp.T, [], sp.check, sp.child_mode, sp.el_name))
+        except Exception as e:
+            g0 = 'construction-raises:' + type(e).__name__
+        S[sp.key] = {'spec': sp, 'seen': {g0}, 'frontier': [((), [], [])], 'transitions': 0, 'depth': 0,
                      'per_level': [1], 'capped': False, 'vio': [], 'viokeys': set(), 'ostats': collections.Counter(),
                      'active': True, 'closing': 0}
 
